@@ -177,3 +177,17 @@ var round17Explanations = map[string]string{
 	"C18": " (W20) every store into flow.n in pkg/module/http2 lies in a method whose receiver is flow.",
 	"C19": " (R17) no call into package sort reachable from transferConfig/DumpJSON/DumpConfig gets a slice of ExtendConfig, Filter, FilterChain, Router, VirtualHost, WeightedCluster, Host or HeaderMatcher (frozen table, one reason each).",
 }
+
+var round18Explanations = map[string]string{
+	"C03": " (R23) in the closures of onUpstreamRequestSent an atomic store of 1 into the flag doRetry loads dominates the CAS on upstreamResponseReceived.",
+	"C04": " (R20) NewRouteBase calls regexp.Compile on a HeaderMatcher value and a return with a non-nil error is guarded by that call's error.",
+	"C07": " (CODE) as C08.CODE.",
+	"C08": " (CODE) in bolt and boltv2 Decode an If comparing Bytes()[0] with the package's ProtocolCode, whose foreign-code edge cannot reach decodeRequest/decodeResponse, lies before every such call.",
+	"C09": " (R14) in every newActiveClient whose Connect() dominates NewStreamClient, an OnEvent with the Connected constant on that client is dominated by it. (R15) the delete in activeClientBinding.removeFromPool and the sync.Map Delete in poolMultiplex.onConnectionEvent are guarded by an equality of a value with the client itself.",
+	"C10": " (SLOT) as C09.R15. (GOAWAY) the atomic word loaded in the guard of codecClient.Close() in activeClientMultiplex.OnDestroyStream is stored by OnGoAway and by no atomic Store/CAS of CheckAndInit or init.",
+	"C11": " (O24) every (*sync.WaitGroup).Done on StageManager.wg is guarded by the true edge of an atomic CompareAndSwap.",
+	"C13": " (R29) the value appended onto NextProtos in tlsConfigTemplate derives from strings.ToLower and strings.TrimSpace.",
+	"C14": " (R19) a SendHijackReply in IPAccessFilter.OnReceive is guarded by the error result of IsAllow being non-nil and by IsDenyAction().",
+	"C17": " (R26) as C03.R23. (R28) stores into RouterConfigurationConfig/VirtualHost.RequestHeadersToRemove, RouterActionConfig.{Request,Response}HeadersTo{Add,Remove} and HostRewrite in the conv package derive from the xDS getters of the same meaning. (R29) finalizePathHeader is statically reachable from FinalizeRequestHeaders of every *RouteRuleImpl type embedding the base rule.",
+	"C20": " (R11) redactTLSConfig stores a fresh Alloc into TLSConfig.SdsConfig whose CertificateConfig and ValidationConfig are results of a callee that reaches redactRawJSON.",
+}
